@@ -7,6 +7,7 @@ package main
 import (
 	"fmt"
 	"go/constant"
+	"go/token"
 	"go/types"
 	"regexp"
 	"sort"
@@ -14,6 +15,12 @@ import (
 
 	"golang.org/x/tools/go/ssa"
 )
+
+// astScanOpts: functions that may write existing syntax-tree nodes (the resolution steps
+// whose contracts re-establish what the evaluator relies on)
+type astScanOpts struct {
+	Allowed []string `json:"allowed"`
+}
 
 type scanOpts struct {
 	// functions allowed to call random / clock sources
@@ -540,6 +547,141 @@ func returnsConstantAt(f *ssa.Function, v ssa.Value, b *ssa.BasicBlock) bool {
 	if mi, ok := last.(*ssa.MakeInterface); ok {
 		_, isC := mi.X.(*ssa.Const)
 		return isC
+	}
+	return false
+}
+
+// scanAstWrites: the syntax tree is written only while it is being built. A store into a
+// field of a struct of package ast, into an element of a slice held in such a field, or into
+// a map held in such a field must target an object that this very function allocated (a
+// composite literal / new in the same body). WFNode is a heap-independent predicate that a
+// parse function establishes when it returns the node it built; this obligation is what
+// makes that sound: nobody writes the node afterwards. Functions listed in allowed are the
+// resolution steps of package ast whose contracts re-establish the guarded children.
+func (x *Exec) scanAstWrites(funcs []*ssa.Function, allowed map[string]bool) []*ObResult {
+	var out []*ObResult
+	for _, f := range funcs {
+		key := funcKey(f)
+		bad := ""
+		n := 0
+		for _, b := range f.Blocks {
+			for _, in := range b.Instrs {
+				var addr ssa.Value
+				switch v := in.(type) {
+				case *ssa.Store:
+					addr = v.Addr
+				case *ssa.MapUpdate:
+					addr = v.Map
+				default:
+					continue
+				}
+				base, isAst := astWriteBase(addr)
+				if !isAst {
+					continue
+				}
+				n++
+				if st, ok := in.(*ssa.Store); ok {
+					if fa, ok := st.Addr.(*ssa.FieldAddr); ok && isAstStructPtr(fa.X.Type()) {
+						stt := fa.X.Type().Underlying().(*types.Pointer).Elem()
+						fld := stt.Underlying().(*types.Struct).Field(fa.Field).Name()
+						if x.cs.StoreInvs[structName(stt)+"."+fld] != nil {
+							continue // a declared store invariant is asserted at this store
+						}
+					}
+				}
+				if !locallyAllocated(f, base, 0) && bad == "" {
+					bad = fmt.Sprintf("store into syntax-tree memory of an object not allocated here at %s", x.ld.fset.Position(in.Pos()))
+				}
+			}
+		}
+		if n == 0 {
+			continue
+		}
+		r := &ObResult{Name: key + "/scan:ast-written-only-under-construction", Func: key, Kind: "scan", Status: "proved", Solver: "ssa-scan", Instances: n}
+		if bad != "" && !allowed[key] {
+			r.Status = "refuted"
+			r.Raw = bad
+		}
+		out = append(out, r)
+	}
+	return out
+}
+
+func isAstStructPtr(t types.Type) bool {
+	p, ok := t.Underlying().(*types.Pointer)
+	if !ok {
+		return false
+	}
+	n, ok := p.Elem().(*types.Named)
+	if !ok || n.Obj().Pkg() == nil {
+		return false
+	}
+	_, isStruct := n.Underlying().(*types.Struct)
+	return isStruct && strings.HasSuffix(n.Obj().Pkg().Path(), "/ast")
+}
+
+// astWriteBase: if addr is (a location inside) a field of an ast struct, or an element of a
+// slice / a map loaded from such a field, returns the pointer to that struct.
+func astWriteBase(addr ssa.Value) (ssa.Value, bool) {
+	for depth := 0; depth < 8; depth++ {
+		switch v := addr.(type) {
+		case *ssa.FieldAddr:
+			if isAstStructPtr(v.X.Type()) {
+				return v.X, true
+			}
+			addr = v.X
+		case *ssa.IndexAddr:
+			addr = v.X
+		case *ssa.UnOp:
+			if v.Op != token.MUL {
+				return nil, false
+			}
+			// a slice or map value loaded from a field
+			if fa, ok := v.X.(*ssa.FieldAddr); ok && isAstStructPtr(fa.X.Type()) {
+				return fa.X, true
+			}
+			return nil, false
+		default:
+			return nil, false
+		}
+	}
+	return nil, false
+}
+
+// locallyAllocated: v is a heap allocation of f, or the value of a local variable of f that
+// only ever holds such allocations.
+func locallyAllocated(f *ssa.Function, v ssa.Value, depth int) bool {
+	if depth > 4 {
+		return false
+	}
+	switch a := v.(type) {
+	case *ssa.Alloc:
+		return a.Heap && a.Parent() == f
+	case *ssa.UnOp:
+		if a.Op != token.MUL {
+			return false
+		}
+		cell, ok := a.X.(*ssa.Alloc)
+		if !ok || cell.Parent() != f {
+			return false
+		}
+		stores := 0
+		for _, ref := range *cell.Referrers() {
+			switch r := ref.(type) {
+			case *ssa.Store:
+				if r.Addr != ssa.Value(cell) {
+					return false // the variable's address escapes into memory
+				}
+				stores++
+				if !locallyAllocated(f, r.Val, depth+1) {
+					return false
+				}
+			case *ssa.UnOp, *ssa.DebugRef:
+			default:
+				return false
+			}
+		}
+		return stores > 0
 	}
 	return false
 }
